@@ -89,6 +89,13 @@ def hexOr (l : Line) (k : String) : Option Bytes :=
   | none => some []
   | some s => fromHex s
 
+/-- The algorithm name: `alg=<name>` or, for names the line protocol cannot carry (empty, blanks,
+control characters), `alghex=<utf-8 bytes in hex>`. -/
+def algOf (l : Line) : Option String :=
+  match l.get? "alghex" with
+  | some hx => (fromHex hx).bind fun bs => String.fromUTF8? bs.toByteArray
+  | none => l.get? "alg"
+
 def agree (b : Bool) : String := if b then "agree" else "differ"
 
 /-- Independent spec of what an encryption with valid sizes must produce (ct, tag), if the
@@ -116,7 +123,7 @@ def specDecrypt (alg : String) (key nonce ct tag ad : Bytes) : Option (Option By
 def answer (l : Line) : String :=
   match l.op with
   | "sym" =>
-    match l.get? "fn", l.get? "alg", (l.get? "kind").bind parseKind, hexOr l "key", hexOr l "nonce",
+    match l.get? "fn", algOf l, (l.get? "kind").bind parseKind, hexOr l "key", hexOr l "nonce",
           hexOr l "data", hexOr l "tag", hexOr l "ad" with
     | some fn, some alg, some kind, some key, some nonce, some data, some tag, some ad =>
       let k : Key := { kind := kind, raw := key }
@@ -145,7 +152,7 @@ def answer (l : Line) : String :=
       else "bad fn"
     | _, _, _, _, _, _, _, _ => "bad sym line"
   | "asym" =>
-    match l.get? "fn", l.get? "alg", (l.get? "kind").bind parseKind with
+    match l.get? "fn", algOf l, (l.get? "kind").bind parseKind with
     | some fn, some alg, some kind =>
       let r : Outcome Unit :=
         if fn = "Encrypt" then
